@@ -488,9 +488,11 @@ pub fn c12_case(rng: &mut Rng, norders: usize, with_q: bool) -> CaseOut {
 /// one run of the history under a naming, in a fresh thread (fresh slot table): Ok(observation) or Err(panic site)
 fn run_fresh(h: &MHist, nm: &Naming) -> Result<Obs, Option<(usize, PanicInfo)>> {
     let (h2, nm2) = (h.clone(), nm.clone());
+    let salt = crate::core::case_salt();
     std::thread::Builder::new()
         .stack_size(128 << 20)
         .spawn(move || {
+            crate::core::CASE_SALT.with(|c| c.set(salt));
             nm2.prepare();
             let order: Vec<usize> = (0..h2.ops.len()).collect();
             match execute(&h2, &nm2, &order, &[]) {
